@@ -24,6 +24,7 @@ REQUIRED_EVENTS = ["sessions", "faults_injected", "ended_connections_checked", "
                    "tcp_faults", "tty_faults"]
 EXHAUSTIVE_NOTE = "every fault kind at every step index of every script, for each transport mix of the tier"
 
+QUICK_SHARDS = 4
 FAULTS = ["eof", "read-error", "eof-inside-message", "junk-then-eof", "handler-exception", "write-error"]
 
 
